@@ -34,6 +34,9 @@ type c07Case struct {
 	// Chain: the SPKeyStore field holds the SP certificate followed by a second certificate with a
 	// wider validity window (a configured chain); only the SP certificate's own window counts
 	Chain bool `json:"certificate_chain,omitempty"`
+	// Both: the EncryptedAssertion carries an inline EncryptedKey (naming the recipient of the
+	// case) and a second, detached EncryptedKey for the same content key that names nobody
+	Both bool `json:"inline_and_detached_key,omitempty"`
 }
 
 func c07Spec(c c07Case, encrypted bool) idp.ResponseSpec {
@@ -53,6 +56,9 @@ func c07Spec(c c07Case, encrypted bool) idp.ResponseSpec {
 		a.Encrypt = &idp.EncSpec{DataAlg: idp.AllDataAlgs[c.DataAlg], RecipCert: c.Recip}
 		if c.Detached {
 			a.Encrypt.Placement = "detached"
+		}
+		if c.Both {
+			a.Encrypt.Placement = "both"
 		}
 	}
 	return r
@@ -282,7 +288,7 @@ func c07Replay(raw json.RawMessage) ([]string, string) {
 }
 
 func c07Run(r *mc.Run) {
-	r.Rule = "Part A: the attacker BFS and tree enumeration of C01 (encrypt operator over 8 algorithm/recipient variants at every assertion; X(G)/X(E) tree labels), judged by the pool and direct-child invariants. Part B: full product placement(2) x ValidateEncryptionCert(2) x clock position(11) x SP certificate state(3) x recipient certificate(4) x data algorithm(5) x EncryptedKey placement(2: inline, detached) x SP key API(4: SPKeyStore field as TLS, as TLS with a two-certificate chain whose second certificate outlives the SP's, or as a custom key store type; SetSPKeyStore); near misses of the SP certificate as named recipient (letter case of the base64 text, truncated, extended, one bit changed: refused; line-wrapped: the same certificate); plus Responses with two assertions encrypted under one session key, full product signing placement(2) x per assertion (EncryptedKey placement(2) x recipient certificate(3: none, the SP's, a foreign one)) x key API(2): refused iff either names a foreign certificate, else equal to the plaintext twin. non-trivial = decryption was attempted (an EncryptedAssertion reached the decrypt step) or the state was accepted; distinct = distinct (input, configuration)"
+	r.Rule = "Part A: the attacker BFS and tree enumeration of C01 (encrypt operator over 8 algorithm/recipient variants at every assertion; X(G)/X(E) tree labels), judged by the pool and direct-child invariants. Part B: full product placement(2) x ValidateEncryptionCert(2) x clock position(11) x SP certificate state(3) x recipient certificate(4) x data algorithm(5) x EncryptedKey placement(2: inline, detached) x SP key API(4: SPKeyStore field as TLS, as TLS with a two-certificate chain whose second certificate outlives the SP's, or as a custom key store type; SetSPKeyStore); an inline EncryptedKey naming each kind of recipient beside a detached EncryptedKey that names nobody; near misses of the SP certificate as named recipient (letter case of the base64 text, truncated, extended, one bit changed: refused; line-wrapped: the same certificate); plus Responses with two assertions encrypted under one session key, full product signing placement(2) x per assertion (EncryptedKey placement(2) x recipient certificate(3: none, the SP's, a foreign one)) x key API(2): refused iff either names a foreign certificate, else equal to the plaintext twin. non-trivial = decryption was attempted (an EncryptedAssertion reached the decrypt step) or the state was accepted; distinct = distinct (input, configuration)"
 	r.Assume("RSA/ECDSA unforgeable", "the harness's own XML-Enc encryptor/decryptor (idp/enc.go)")
 	var cases []c07Case
 	n, _ := mc.Enumerate(-1, r.Expired, func(ch *mc.Chooser) {
@@ -319,6 +325,15 @@ func c07Run(r *mc.Run) {
 	})
 	r.Set("partB_choice_vectors", n)
 	r.Set("partB_near_miss_recipient_cases", len(cases)-n)
+	mc.Enumerate(-1, r.Expired, func(ch *mc.Chooser) {
+		c := c07Case{Clock: 0, Both: true}
+		c.Recip = []string{"", "KS", "KX", "garbage", "KS~caseswap"}[ch.Choose("recip", 5)]
+		c.Placement = []string{"response-signed", "assertion-signed"}[ch.Choose("placement", 2)]
+		c.Validate = ch.Bool("validate")
+		c.DataAlg = ch.Choose("dataalg", 2)
+		c.Setter = ch.Bool("setter")
+		cases = append(cases, c)
+	})
 	r.Par(len(cases), func(i int) {
 		c := cases[i]
 		keys, detail, class := c07Exec(c)
@@ -356,7 +371,7 @@ func c07Run(r *mc.Run) {
 	groups := map[string][]c07Case{}
 	var order []string
 	for _, c := range cases {
-		k := fmt.Sprintf("%s/%s/%d/%v/%v/%v/%v", c.Placement, c.Recip, c.DataAlg, c.Detached, c.Setter, c.Custom, c.Chain)
+		k := fmt.Sprintf("%s/%s/%d/%v/%v/%v/%v/%v", c.Placement, c.Recip, c.DataAlg, c.Detached, c.Setter, c.Custom, c.Chain, c.Both)
 		if _, ok := groups[k]; !ok {
 			order = append(order, k)
 		}
